@@ -203,6 +203,44 @@ def run(M, rep, tier, only=None):
         else:
             rep.ok(R8, key)
 
+    # ---- R9: the switch belongs to the user: library code never assigns it (a temporary "off" that is not restored on
+    # every exit silently ends time stamping for the whole session)
+    R9 = rep.rule("C19.R9", "no library member assigns the auto-update switch", floor=1,
+                  technique="who-may-write a field: assignments to the switch attribute over all functions of the package")
+    writers = []
+    for q, f_ in sorted(M.funcs.items()):
+        nm = f_.node.name
+        if nm in ("__init__", "auto_update_timestamps") and f_.cls is not None and f_.cls.name == "File":
+            continue
+        for n_ in ast.walk(f_.node):
+            tg = []
+            if isinstance(n_, ast.Assign):
+                tg = n_.targets
+            elif isinstance(n_, (ast.AugAssign, ast.AnnAssign)):
+                tg = [n_.target]
+            for t_ in tg:
+                if isinstance(t_, ast.Attribute) and t_.attr in ("auto_update_timestamps", "_auto_update_timestamps"):
+                    writers.append("%s (%s:%d)" % (q.split(":")[-1], f_.file, n_.lineno))
+    rep.check(R9, "switch writers", not writers, "the auto-update switch is assigned by library code: %s -- if the code between switching it "
+              "off and on again raises, time stamping stays off for every later change" % ", ".join(writers), site=None,
+              what="only File.__init__ and the public setter assign it")
+
+    # ---- R10: closing and flushing a file change nothing in it: a forced update time must read back after reopening
+    R10 = rep.rule("C19.R10", "File.close / File.flush write no attribute", floor=2, technique="event absence on all abstract paths")
+    for nm in ("close", "flush"):
+        fcl = ctx.member("File", nm)
+        if fcl is None:
+            rep.bad(R10, "File." + nm, "required mechanism not found")
+            continue
+        badc = None
+        for p in ctx.paths(fcl, "File"):
+            for e in p.events:
+                if ctx.fx.is_write(e) and ctx.fx.key(e) in ("updated_at", "created_at"):
+                    badc = (p, e)
+        rep.check(R10, "File." + nm, badc is None, "File.%s writes %s: the update time recorded in the file is no longer the time of the last "
+                  "change (and a forced time does not read back)" % (nm, ctx.fx.key(badc[1]) if badc else ""),
+                  site=badc[1].site if badc else None, detail=describe_path(badc[0]) if badc else None)
+
     _r6(M, rep, ctx)
     _r7(M, rep)
 
